@@ -211,6 +211,16 @@ theorem gamma_guard (T : Transc) (x : Rat) :
   unfold gamma gammaViaLn gammaLn
   by_cases h : x ≤ 0 <;> simp [h, Except.map]
 
+/-- **no other guard**: for every `x > 0` `Gamma` returns the value of `std::tgamma` unchanged — whatever it is, in particular a
+    finite value next to the overflow boundary (x up to 171.62437695630271) is not replaced by a limit or an early return.
+    Together with `gamma_guard` the outcome of `Gamma` is completely determined: diagnostic iff `x ≤ 0`, else `tgamma x`. -/
+theorem gamma_no_other_guard (T : Transc) (x : Rat) (hx : 0 < x) : gamma T x = .ok (T.tgamma x) := by
+  unfold gamma; rw [if_neg (not_le.mpr hx)]
+
+/-- … and therefore two glue records that agree on `tgamma x` give the same `Gamma(x)`: the result depends on nothing else -/
+theorem gamma_depends_on_tgamma_only (T₁ T₂ : Transc) (x : Rat) (h : T₁.tgamma x = T₂.tgamma x) : gamma T₁ x = gamma T₂ x := by
+  unfold gamma; rw [h]
+
 /-- the two forms of `Gamma` agree as soon as `tgamma = exp ∘ lnΓ` on the value `GammaLn` returns
     (over the reals they are the same function; in double `exp` magnifies the error of the logarithm) -/
 theorem gamma_forms_agree (T : Transc) (x : Rat) (h : ∀ v, gammaLn T x = .ok v → T.tgamma x = T.exp v) :
